@@ -83,11 +83,13 @@ KeyMuts(kt) == {Mut("key-same-type", 0, kt)} \cup {Mut("key-other-type", 0, t) :
 HashMuts(h) == {Mut("hash", n, "") : n \in HashMutCodes \ {h}}
 SigMuts(s) == {Mut("sig", n, "") : n \in SigMutCodes \ {s}}
 \* forms of the signature value.  DER schemes: a flipped bit inside r or s, a cut-off encoding,
-\* bytes after the complete SEQUENCE, r or s negative / zero, r + group order (out of range),
+\* bytes after the complete SEQUENCE ("trailing"), r or s negative / zero, r + group order (out of range),
+\* content after s INSIDE the SEQUENCE ("inner-trailing": a third element or stray bytes - not a
+\* Dss-Sig-Value / Ecdsa-Sig-Value of RFC 3279, and not "bytes trailing a complete value" either),
 \* clause StrictDER: a non-minimal INTEGER or length encoding is not DER.
 \* RSA: flipped bit, one byte short, one byte long (either end), all zero.
 CommonForms == {"bitflip", "truncated", "trailing", "empty"}
-DERForms == {"negative-r", "negative-s", "zero-r", "zero-s", "r-plus-order", "nonminimal-int", "nonminimal-len"}
+DERForms == {"negative-r", "negative-s", "zero-r", "zero-s", "r-plus-order", "inner-trailing", "nonminimal-int", "nonminimal-len"}
 RSAForms == {"leading-zero", "all-zero"}
 Forms(fam) == CommonForms \cup (IF DERValue(fam) THEN DERForms ELSE IF fam = "rsa" THEN RSAForms ELSE {})
 ValueMuts(kt) == {Mut("value", 0, f) : f \in Forms(Fam(kt))}
